@@ -44,6 +44,21 @@ def main():
         if a.returncode != 0:
             rec['result'] = 'patch-does-not-apply'; rec['detail'] = a.stderr[-200:]
             out.append(rec); print(seed, rec['result']); continue
+        if seed.startswith('harmless'):
+            # a behaviour-preserving rewrite: every check must stay quiet
+            try:
+                t = time.time(); loud = []
+                for i in range(1, 21):
+                    pid = 'C%02d' % i
+                    r = sh(f'cd {V} && timeout 3000 ./check {pid} --tier quick')
+                    if r.returncode != 0 or 'VIOLATION' in r.stdout:
+                        loud.append(pid)
+                rec['property'] = 'all 20'
+                rec['result'] = 'quiet (no alarm, as expected)' if not loud else 'FALSE ALARM in ' + ','.join(loud)
+                rec['wall'] = round(time.time() - t, 1)
+            finally:
+                sh('git -C /repo checkout -- . ; git -C /repo reset -q')
+            out.append(rec); print(seed, rec['result']); continue
         try:
             t = time.time()
             r = sh(f'cd {V} && timeout 3000 ./check {prop} --tier quick')
